@@ -1,7 +1,9 @@
 #!/venv/bin/python
 """Prints the normal form of one function of the (possibly patched) tree: nf.py <patch-id|-> <qualname-suffix> [module]"""
-import ast, os, subprocess, sys
+import ast, contextlib, os, subprocess, sys
 sys.path.insert(0, '/verif')
+sys.path.insert(0, os.path.dirname(os.path.abspath(__file__)))
+from scratch import scratch
 pid, name = sys.argv[1], sys.argv[2]
 modname = sys.argv[3] if len(sys.argv) > 3 else 'config'
 patch = None
@@ -11,16 +13,13 @@ if pid != '-':
     if os.path.exists(p):
       patch = p
   assert patch, pid
-  assert subprocess.run(['git', '-C', '/repo', 'apply', patch]).returncode == 0
-try:
+with (scratch(patch) if patch else contextlib.nullcontext(('/repo', True))) as (root, applied):
+  assert applied, 'patch does not apply'
   from ginsa.core import Index
-  ix = Index('/repo')
+  ix = Index(root)
   m = ix.module(modname)
   for q, f in sorted(ix.by_qual.items()):
     if q.endswith(name) and hasattr(f, 'params'):
       print('#', q)
       print(ast.unparse(f.node))
   print('# normalized', m.normalized, getattr(m, 'normalize_error', None))
-finally:
-  if patch:
-    subprocess.run('git -C /repo checkout -- .', shell=True)
